@@ -1,6 +1,8 @@
 import PfVerif.Proofs.C19Cover
 import PfVerif.Proofs.C19Feat
 import PfVerif.Proofs.C19Nup
+import PfVerif.Proofs.C19Ok6
+import PfVerif.Proofs.C19Seg
 /-! # C19 — stream vectorisation covers every link exactly once, split at confluences
 
 Three groups of theorems, each for ALL inputs (no bound on network size, stream length or
@@ -14,11 +16,10 @@ Three groups of theorems, each for ALL inputs (no bound on network size, stream 
   (`walk_spec`, `streams_model_linked`, `streams_model_flowpath`, `streams_model_size`), and the closed
   forms of `gis_utils.features` / `core.flwdir_tuples` (`features_props`, `vectorize_per_cell`).
 
-NOT proved at algorithm level (second stage, see the comment at `streams_model_linked`):
-`streams_model_ok : Topo ds seq → mask downstream closed → StreamsOK ds mask m (streamsModel …)`,
-i.e. the at-most-once and start clauses for the model (they need the `done`-array invariant of the outer
-loop together with `Topo`); "at least once" is `streams_model_cover_partial`; all clauses are covered by
-the certificate on every case. -/
+Second stage (proved): `streams_model_ok` — for every downstream-first order that contains the stream
+cells and every downstream-closed mask the model returns (fuel suffices) and its output satisfies the
+certificate `StreamsOK`; hence `streams_model_cover` (every link exactly once), `streams_model_pits`.
+`walk_total` is the fuel-totality of the inner walk on a `Topo` order. -/
 namespace Pf.C19
 open Pf
 
@@ -200,12 +201,8 @@ example : upstreamCount #[0, 0, 1, 1, 3, 6] (some #[true, true, false, true, tru
 /-- **consecutive vertices are always linked cells** (algorithm level, every network, order, mask and
 `max_len`): every index array returned by the model is the zero-length feature of a pit or a polyline
 whose consecutive vertices are a cell and its (different) downstream cell.
-
-Full statement aimed at (second stage, NOT proved here; covered by the certificate on every case):
-`streams_model_ok : Topo ds seq → (∀ i, inStream ds mask i → i ∈ seq) → dsClosed ds mask →
-   streamsModel ds seq mask m = some feats → StreamsOK ds mask m feats = true`.
-Missing for it: the invariant of the `done` flags (a cell is flagged iff its link has been emitted; a walk
-never enters a flagged cell, which needs `Topo`). -/
+ No hypothesis on order or mask is needed for this clause
+(the full certificate for the model is `streams_model_ok` below). -/
 theorem streams_model_linked (ds : Array Nat) (seq : List Nat) (mask : Option (Array Bool)) (m : Nat)
     (feats : List (List Nat)) (h : streamsModel ds seq mask m = some feats) :
     ∀ f ∈ feats, (∃ p, f = [p, p] ∧ ds[p]! = p) ∨ (∀ q ∈ pairsOf f, ds[q.1]! = q.2 ∧ q.1 ≠ q.2) := by
@@ -250,11 +247,11 @@ theorem streams_model_size (ds : Array Nat) (seq : List Nat) (mask : Option (Arr
       omega
     · simp [hp] at hf
 
-/-- **cover** (algorithm level, every network, order, mask and `max_len`; `_partial` of
-`streams_model_ok`: "at least once" — "at most once" is the certificate's clause `okOnce`):
-the link of every selected non-pit cell of the sequence occurs in some returned index array, and
-every selected pit of the sequence has its zero-length feature. -/
-theorem streams_model_cover_partial (ds : Array Nat) (seq : List Nat) (mask : Option (Array Bool)) (m : Nat)
+/-- **emitted at least once, for ANY mask and ANY order** (no `Topo`, no closedness): the link of every
+selected non-pit cell of the sequence occurs in some returned index array, and every selected pit of
+the sequence has its zero-length feature. ("Exactly once" needs the hypotheses of `streams_model_ok`;
+see `streams_model_cover`.) -/
+theorem streams_model_emits (ds : Array Nat) (seq : List Nat) (mask : Option (Array Bool)) (m : Nat)
     (feats : List (List Nat)) (h : streamsModel ds seq mask m = some feats)
     (hb : ∀ i ∈ seq, i < ds.size) (i : Nat) (hi : i ∈ seq) (hm : maskAt mask i = true) :
     (ds[i]! ≠ i → ∃ f ∈ feats, (i, ds[i]!) ∈ pairsOf f) ∧ (ds[i]! = i → [i, i] ∈ feats) := by
@@ -288,6 +285,73 @@ example : streamsModel #[0, 0, 1, 1, 3, 4, 5, 6, 7] [0, 1, 2, 3, 4, 5, 6, 7, 8] 
 -- a stream mask (cells 0,1,3,4): cell 2 is not a stream cell, so 1 is no confluence of the stream network
 example : streamsModel #[0, 0, 1, 1, 3, 4, 5, 6, 7] [0, 1, 2, 3, 4, 5, 6, 7, 8]
     (some #[true, true, false, true, true, false, false, false, false]) 0 = some [[4, 3, 1, 0], [0, 0]] := by decide
+
+/-! ## second stage: the model satisfies the certificate -/
+
+/-- **fuel totality of the walk**: on a downstream-first order whose cells are in range, the inner
+`while True` started at any cell of the order returns within the `ds.size + 1` steps of fuel the model
+uses (so `none` = "fuel exhausted" never occurs on loop-free networks). -/
+theorem walk_total (ds : Array Nat) (nup : Array Int) (seq : List Nat) (htopo : Topo ds seq)
+    (hb : ∀ i ∈ seq, i < ds.size) (c : Nat) (hc : c ∈ seq) (acc : List Nat) (done : Array Bool) :
+    ∃ w, streamWalk ds nup (ds.size + 1) c acc done = some w :=
+  streamWalk_total_topo ds nup seq htopo hb c hc acc done
+
+/-- **the algorithm theorem** (`streams_model_ok`, full strength): for every network `ds`, every
+downstream-first order `seq` (`Topo`) of cells in range that contains all stream cells, every
+downstream-closed stream mask and every `max_len`, the model of `streams.streams` returns (its fuel
+suffices) and its output satisfies every clause of the certificate `StreamsOK`: links of stream cells
+exactly once and nothing else, no interior confluence, starts at a headwater / confluence / previous piece
+end, ends at a confluence / pit / next piece start, one zero-length feature per pit, bounded size.
+Proof: invariant of the `done` flags over the order processed from its end (`Inv`, `inv_walk`): flagged
+cells are exactly the upstream ends of emitted pairs and the pits with an emitted zero-length feature;
+a flagged cell that is still to be visited was entered from a flagged cell; a flagged cell draining into
+a non-confluence has a flagged downstream cell; so a walk never enters a flagged cell (uniqueness of the
+inflow of a non-confluence) and an unflagged selected cell at its visit is a headwater or confluence. -/
+theorem streams_model_ok (ds : Array Nat) (seq : List Nat) (mask : Option (Array Bool)) (m : Nat)
+    (htopo : Topo ds seq) (hb : ∀ i ∈ seq, i < ds.size)
+    (hcov : ∀ i, inStream ds mask i = true → i ∈ seq) (hcl : dsClosed ds mask = true) :
+    ∃ feats, streamsModel ds seq mask m = some feats ∧ StreamsOK ds mask m feats = true := by
+  obtain ⟨st', hfold, hinv⟩ := fold_inv ds mask m hcl seq htopo hb _ (inv_init ds mask m seq hcov)
+  have hmodel : streamsModel ds seq mask m = some st'.1 := by
+    unfold streamsModel; rw [hfold]; rfl
+  exact ⟨st'.1, hmodel, streamsOK_of_inv ds mask m seq st' hinv hmodel⟩
+
+/-- **cover, exactly once** (algorithm level): under the hypotheses of `streams_model_ok` every link
+`(i, ds i)` of a stream cell occurs exactly once among the consecutive vertex pairs of the stream
+features returned by the model, and every consecutive pair is such a link. -/
+theorem streams_model_cover (ds : Array Nat) (seq : List Nat) (mask : Option (Array Bool)) (m : Nat)
+    (htopo : Topo ds seq) (hb : ∀ i ∈ seq, i < ds.size)
+    (hcov : ∀ i, inStream ds mask i = true → i ∈ seq) (hcl : dsClosed ds mask = true) :
+    ∃ feats, streamsModel ds seq mask m = some feats ∧
+      (∀ i, inStream ds mask i = true → ds[i]! ≠ i → (allPairs feats).count (i, ds[i]!) = 1) ∧
+      (∀ p ∈ allPairs feats, inStream ds mask p.1 = true ∧ ds[p.1]! = p.2 ∧ p.1 ≠ p.2) := by
+  obtain ⟨feats, h1, h2⟩ := streams_model_ok ds seq mask m htopo hb hcov hcl
+  have hs := streamsOK_sound ds mask m feats h2
+  exact ⟨feats, h1, hs.1, hs.2.1⟩
+
+/-- **one zero-length feature per pit** (algorithm level): under the hypotheses of `streams_model_ok`
+every pit of the stream network has exactly one feature `[p, p]` in the model's output. -/
+theorem streams_model_pits (ds : Array Nat) (seq : List Nat) (mask : Option (Array Bool)) (m : Nat)
+    (htopo : Topo ds seq) (hb : ∀ i ∈ seq, i < ds.size)
+    (hcov : ∀ i, inStream ds mask i = true → i ∈ seq) (hcl : dsClosed ds mask = true) :
+    ∃ feats, streamsModel ds seq mask m = some feats ∧
+      ∀ p, inStream ds mask p = true → ds[p]! = p → feats.count [p, p] = 1 := by
+  obtain ⟨feats, h1, h2⟩ := streams_model_ok ds seq mask m htopo hb hcov hcl
+  exact ⟨feats, h1, (streamsOK_sound ds mask m feats h2).2.2.2.2.1⟩
+
+/-- non-vacuity of the hypotheses: the example network is a `Topo` order, the all-cells mask is closed -/
+example : Topo #[0, 0, 1, 1, 3] [0, 1, 2, 3, 4] := by
+  have h0 : Topo #[0, 0, 1, 1, 3] [] := Topo.nil
+  have h1 : Topo #[0, 0, 1, 1, 3] ([] ++ [0]) := Topo.snoc h0 (by simp) (Or.inl (by decide))
+  have h2 : Topo #[0, 0, 1, 1, 3] ([0] ++ [1]) := Topo.snoc h1 (by simp) (Or.inr (by decide))
+  have h3 : Topo #[0, 0, 1, 1, 3] ([0, 1] ++ [2]) := Topo.snoc h2 (by simp) (Or.inr (by decide))
+  have h4 : Topo #[0, 0, 1, 1, 3] ([0, 1, 2] ++ [3]) := Topo.snoc h3 (by simp) (Or.inr (by decide))
+  exact Topo.snoc h4 (by simp) (Or.inr (by decide))
+example : dsClosed #[0, 0, 1, 1, 3] none = true ∧
+    dsClosed #[0, 0, 1, 1, 3] (some #[true, true, false, true, false]) = true ∧
+    dsClosed #[0, 0, 1, 1, 3] (some #[true, false, false, true, false]) = false := by decide
+example : streamsModel #[0, 0, 1, 1, 3] [0, 1, 2, 3, 4] none 0 = some [[4, 3, 1], [2, 1], [1, 0], [0, 0]] ∧
+    StreamsOK #[0, 0, 1, 1, 3] none 0 [[4, 3, 1], [2, 1], [1, 0], [0, 0]] = true := by decide
 
 /-! ## features and per-cell vectorisation -/
 
@@ -336,5 +400,68 @@ theorem vectorize_per_cell (nxt : Array Nat) (mask : Option (Array Bool)) (coord
   simp
 
 example : flwdirTuples #[0, 0, 1, 4, 4] (some #[true, true, false, true, true]) = [(0, 0), (1, 0), (3, 4), (4, 4)] := by decide
+
+/-! ## `streams(idxs_out=...)`: `subgrid.segment_indices` -/
+
+/-- **segments between outlets** (every next-cell array — `idxs_ds` or the main-upstream array —, outlet
+list, mask and `max_len`): every index array returned by the model of `segment_indices` is either the
+zero-length feature `[p, p]` of a pit, or a segment with at least two vertices that
+* starts at a listed outlet,
+* is the path of its first cell along `nxt` (`f[k] = nxt^k (f[0])`), consecutive vertices being a cell and
+  its different, existing next cell that the mask selects,
+* has no listed outlet among its interior vertices,
+* has at most `max_len` vertices when `max_len > 0`,
+* ends where the loop breaks (no next cell, pit, next cell masked out, `max_len` vertices reached) or at
+  the next listed outlet. -/
+theorem segment_indices_spec (idxsOut : List Nat) (nxt : Array Nat) (mask : Option (Array Bool)) (maxLen : Nat)
+    (out : List (List Nat)) (h : segmentIndices idxsOut nxt mask maxLen = some out) :
+    ∀ f ∈ out, (∃ p, f = [p, p] ∧ nxt[p]! = p) ∨
+      (2 ≤ f.length ∧ (∃ s ∈ idxsOut, s ≠ nxt.size ∧ f.head? = some s) ∧
+       (∀ q ∈ pairsOf f, nxt[q.1]! = q.2 ∧ q.1 ≠ q.2 ∧ q.2 ≠ nxt.size ∧ maskAt mask q.2 = true) ∧
+       (∀ k, k < f.length → f[k]? = some (iterA nxt k f.head!)) ∧
+       (∀ v ∈ interior f, v < nxt.size → v ∉ idxsOut) ∧
+       (0 < maxLen → f.length ≤ maxLen) ∧
+       (∃ e, f.getLast? = some e ∧
+         (segStop nxt mask maxLen e f.length = true ∨ (e ∈ idxsOut ∧ e < nxt.size)))) := by
+  unfold segmentIndices at h
+  refine foldlM_seg_forall nxt _ mask maxLen _ idxsOut ?_ idxsOut [] out (fun _ h => h) h (by simp)
+  intro idx0 r hmem0 hne hr f hf
+  obtain ⟨tail, hS, hidx⟩ := segWalk_spec nxt _ mask maxLen _ idx0 [idx0] r hr
+  have hidx' : r.1 = idx0 :: tail := by simpa using hidx
+  unfold segFeatures at hf
+  rcases List.mem_append.mp hf with hf | hf
+  · right
+    by_cases hl : r.1.length > 1
+    · simp only [hl, if_true, List.mem_singleton] at hf
+      subst hf
+      rw [hidx'] at hl ⊢
+      have hlink := hS.linked
+      refine ⟨hl, ?_, hlink, ?_, ?_, ?_, ?_⟩
+      · -- the start is the listed outlet idx0
+        exact ⟨idx0, hmem0, hne, rfl⟩
+      · exact path_of_pairs nxt _ (fun q hq => (hlink q hq).1)
+      · intro v hv hvlt hmem
+        have := hS.interior v hv
+        have h2 := (segOutlets_get idxsOut nxt.size v).mpr ⟨hmem, hvlt⟩
+        rw [h2] at this; cases this
+      · intro hm
+        have := hS.length hm (by simp; omega)
+        simp at this ⊢; omega
+      · obtain ⟨e, he, hcase⟩ := hS.ends
+        refine ⟨e, he, ?_⟩
+        rcases hcase with ⟨h1, _, _⟩ | ⟨_, h2, _, _⟩
+        · left
+          have : (idx0 :: tail).length = [idx0].length + tail.length := by simp; omega
+          rw [this]; exact h1
+        · exact Or.inr ((segOutlets_get idxsOut nxt.size e).mp h2)
+    · simp [hl] at hf
+  · left
+    by_cases hp : r.2.1 = true
+    · simp only [hp, if_true, List.mem_singleton] at hf
+      exact ⟨r.2.2, hf, hS.pit_last hp⟩
+    · simp [hp] at hf
+
+example : segmentIndices [4, 1] #[0, 0, 1, 1, 3] none 0 = some [[4, 3, 1], [1, 0], [0, 0]] := by decide
+example : segmentIndices [4] #[0, 0, 1, 1, 3] none 2 = some [[4, 3]] := by decide
 
 end Pf.C19
